@@ -147,6 +147,50 @@ def translate():
             "  decide (weight * p_x ≤ eps_zero)", "",
             "/-- the post states are divided by the probabilities taken before the renormalisation -/",
             f"def postStatesUseRaw : Bool := {use_raw}", ""]
+
+    # ---- eps_zero handed to the composite in G∘M, M∘G, M∘M, G∘StateEnsemble
+    def eps_expr(call, who):
+        kw = [k for k in call.keywords if k.arg == "eps_zero"]
+        if not kw:
+            return "(1 : Rat) / 100000000"          # constructor default 10 ** -8
+        txt = ast.unparse(kw[0].value)
+        table = {"elem1.eps_zero": "eps1", "elem2.eps_zero": "eps2",
+                 "max(elem1.eps_zero, elem2.eps_zero)": "(if eps1 < eps2 then eps2 else eps1)",
+                 "max(elem2.eps_zero, elem1.eps_zero)": "(if eps2 < eps1 then eps1 else eps2)"}
+        if txt not in table:
+            fail(call, f"unexpected eps_zero argument in {who}")
+        return table[txt]
+
+    def ctor_call(stmts, cls, who):
+        calls = [x for st in stmts for x in ast.walk(st) if isinstance(x, ast.Call) and ast.unparse(x.func) == cls]
+        if len(calls) != 1:
+            fail(stmts[0], f"expected one {cls}(...) in {who}")
+        return calls[0]
+
+    disp = need("_compose_qoperations")
+    branches = {}
+    node = [x for x in disp.body if isinstance(x, ast.If) and "type(elem1) == Gate and type(elem2) == Gate" in ast.unparse(x.test)]
+    if len(node) != 1:
+        fail(disp, "dispatch chain not found")
+    cur = node[0]
+    while isinstance(cur, ast.If):
+        branches[ast.unparse(cur.test)] = cur.body
+        cur = cur.orelse[0] if len(cur.orelse) == 1 and isinstance(cur.orelse[0], ast.If) else None
+    def br(t1, t2):
+        key = f"type(elem1) == {t1} and type(elem2) == {t2}"
+        if key not in branches:
+            fail(disp, f"branch {key} not found")
+        return branches[key]
+    gm = eps_expr(ctor_call(br("Gate", "MProcess"), "MProcess", "Gate∘MProcess"), "Gate∘MProcess")
+    mg = eps_expr(ctor_call(br("MProcess", "Gate"), "MProcess", "MProcess∘Gate"), "MProcess∘Gate")
+    ge = eps_expr(ctor_call(br("Gate", "StateEnsemble"), "StateEnsemble", "Gate∘StateEnsemble"), "Gate∘StateEnsemble")
+    mm = eps_expr(ctor_call(need("_compose_qoperations_MProcess_MProcess").body, "MProcess", "MProcess∘MProcess"), "MProcess∘MProcess")
+    out += [f"/-! ### operators.py:{disp.lineno} `_compose_qoperations`: the `eps_zero` handed to the composite",
+            "(`eps1` / `eps2` = `elem1.eps_zero` / `elem2.eps_zero`) -/", "",
+            f"def gmEps (eps1 eps2 : Rat) : Rat := {gm}",
+            f"def mgEps (eps1 eps2 : Rat) : Rat := {mg}",
+            f"def mmEps (eps1 eps2 : Rat) : Rat := {mm}",
+            f"def geEps (eps1 eps2 : Rat) : Rat := {ge}", ""]
     out += ["end QGen.C06", ""]
     new = "\n".join(out)
     dst = os.path.join(common.LEAN, "QGen", "C06.lean")
